@@ -398,6 +398,12 @@ func c06Realtime(c *core.Ctx) {
 		if large {
 			msgs[i] = c06FeedLarge(r, c.Index*3+i, c06LargeSizes[(c.Index/8+i)%len(c06LargeSizes)])
 		}
+		if i > 0 && !large && c.Index%2 == 0 {
+			// B and C are siblings of A: the same entity ids and, field by field, mostly the same identifiers and timestamps,
+			// with partly different content - what a cache that survives a call and is keyed by too few fields gets wrong
+			msgs[i] = rgen.Sibling(r, msgs[0], 1, 3+4*(i-1)).(*gtfsrt.FeedMessage)
+			c.Feature("history-of-sibling-messages")
+		}
 		rb, err := core.NewROBuf(rgen.Marshal(msgs[i]))
 		if err != nil {
 			c.Note("harness_error", err.Error())
